@@ -559,7 +559,7 @@ struct Placed<const K: usize> {
     e: Encoding,
     tail: [u8; 16],
 }
-fn with_placed<R>(off: usize, bytes: [u8; 32], fill: u8, f: &dyn Fn(&Encoding) -> R) -> R {
+pub fn with_placed<R>(off: usize, bytes: [u8; 32], fill: u8, f: &dyn Fn(&Encoding) -> R) -> R {
     macro_rules! go {
         ($($k:literal)*) => { match off { $($k => { let p = Placed::<$k> { pad: [fill; $k], e: Encoding(bytes), tail: [fill; 16] }; let r = f(std::hint::black_box(&p.e)); std::hint::black_box(&p); r })* _ => unreachable!() } };
     }
